@@ -19,11 +19,23 @@ MOD = 'checks.c01'
 SPEC = ('TR_MetricLearn', 'TR_MetricLearn.cfg')
 PID = 'C01'
 
-KINDS = ['train', 'dup_xy', 'dup_yz', 'all_same', 'collinear', 'tiny', 'huge', 'far', 'random', 'mixed_scale']
+KINDS = ['train', 'dup_xy', 'dup_yz', 'all_same', 'collinear', 'tiny', 'huge', 'far', 'random', 'mixed_scale', 'nullspace',
+         'nullspace']
 BIG = 2.0 ** 332        # ~ 1e100, an exact scaling
 
 
-def make_triple(rng, X, kind):
+def null_direction(L):
+  """a direction that the learned transformation (nearly) annihilates: the right singular vector of the smallest
+  singular value (exactly in the null space for rank-deficient L)"""
+  L = np.atleast_2d(np.asarray(L, float))
+  d = L.shape[1]
+  if L.shape[0] == 0:
+    return np.eye(d)[0]
+  _, _, vt = np.linalg.svd(L, full_matrices=True)
+  return vt[-1]
+
+
+def make_triple(rng, X, kind, L=None):
   n, d = X.shape
   i, j, k = (int(v) for v in rng.choice(n, size=3, replace=False))
   x, y, z = X[i].copy(), X[j].copy(), X[k].copy()
@@ -46,6 +58,12 @@ def make_triple(rng, X, kind):
     x, y, z = rng.normal(size=d), rng.normal(size=d) * 10, rng.normal(size=d) * 0.01
   elif kind == 'mixed_scale':
     x, y, z = x / BIG, y, z * 2.0 ** 100
+  elif kind == 'nullspace' and L is not None:
+    # distinct points that the learned pseudo-metric identifies (rank-deficient models: n_components < n_features,
+    # low-rank SCML, singular metrics): y - x lies in the (numerical) null space of L
+    v = null_direction(L)
+    y = x + v * float(rng.choice([1.0, 37.5, 1e3]))
+    z = y + v * float(rng.choice([0.5, 8.0]))
   return x, y, z
 
 
@@ -76,7 +94,7 @@ def gen_trace(recipe):
   metric = est.get_metric()
   kinds = recipe['kinds']
   for kind in kinds:
-    x, y, z = make_triple(rng, tr['X'], kind)
+    x, y, z = make_triple(rng, tr['X'], kind, est.components_)
     e = obs.triple_event(est, x, y, z, metric)
     e['kind'] = kind
     events.append(e)
